@@ -451,6 +451,28 @@ Proof.
     + intro k. rewrite (view_memb _ _ k Hr). apply (apply_updated_effect (idx o) _ nw Hne Hap).
 Qed.
 
+Lemma stepV_putlost sg r0 s t s' :
+  InvS s -> InvV r0 s -> step sg s (EPutLost t) = Some s' -> InvV r0 s'.
+Proof.
+  intros I V H. simpl in H.
+  destruct (pcs s t) as [|c0| | |old|nw o|oi ap|r|r|r] eqn:Hpc; try discriminate.
+  assert (Hm : is_main (pcs s t) = true) by (rewrite Hpc; reflexivity).
+  destruct (v_main _ _ V t Hm) as [_ Ha]. rewrite Hpc in Ha. simpl in Ha. symmetry in Ha.
+  pose proof (items_nonempty _ _ V) as Hne.
+  pose proof (store_cases _ _ _ I V Hm) as Hst.
+  assert (Hst' : forall x, In x (store s) -> reg s = Some x \/ In x (junk s)).
+  { intros x Hx. destruct (Hst x Hx) as [E|[E|(a & E)]]; auto. congruence. }
+  destruct (n_put _ _ V t nw o Hpc) as [Hr Hap].
+  injection H as <-.
+  unfold set_pc, add_lin, set_reg, batch; simpl; fold (batch s).
+  apply invV_main_apply; auto.
+  - view_triv.
+  - intros x [<-|Hx]; auto. destruct (Hst' x Hx) as [E|E].
+    + pose proof (view_some _ _ _ E Hr) as Eo. subst o. right; left; now left.
+    + right; left. destruct o; simpl; auto.
+  - intro k. rewrite (view_memb _ _ k Hr). apply (apply_updated_effect (idx o) _ nw Hne Hap).
+Qed.
+
 Lemma stepV_del sg r0 s t f s' :
   InvS s -> InvV r0 s -> step sg s (EDel t f) = Some s' -> InvV r0 s'.
 Proof.
@@ -569,6 +591,7 @@ Proof.
   - eapply stepV_prepare; eauto.
   - eapply stepV_commit; eauto.
   - eapply stepV_put; eauto.
+  - eapply stepV_putlost; eauto.
   - eapply stepV_del; eauto.
   - eapply stepV_complete; eauto.
   - eapply stepV_done; eauto.
